@@ -53,6 +53,9 @@ inline size_t faulty(size_t n, bool &hit) {
         case 3: return n > 65536 ? n - 65536 : n / 2;     // short by exactly 2^16 (a count compared in 16 bits would call this complete)
         case 5: return n + 1;                              // a count larger than asked: nonsense from the driver, certainly not a complete transfer
         case 6: return (size_t)-5;                         // a negative errno squeezed through the size_t return type
+        case 7: return (size_t)-EBUSY;                     // other errno values through the same convention: a device still busy with its write cycle,
+        case 8: return (size_t)-EAGAIN;                    // "try again",
+        case 9: return (size_t)-EINTR;                     // "interrupted" - a failed transfer is a failed transfer
         case 30: case 31: return n;                        // acknowledged in full - but the medium keeps something else (see med_write)
         default: return n > 256 ? n - 256 : n / 3;
         }
